@@ -366,7 +366,12 @@ impl RtpsWriterProxy {
                 let base = *missing_fragments_iter
                     .peek()
                     .expect("At least a fragment must be missing");
-                let fragment_number_state = FragmentNumberSet::new(base, missing_fragments_iter);
+                // A fragment number set covers at most 256 fragment numbers. The fragments beyond are requested
+                // once these have arrived
+                let fragment_number_state = FragmentNumberSet::new(
+                    base,
+                    missing_fragments_iter.take_while(|frag_num| frag_num - base < 256),
+                );
                 let nack_frag_submessage = NackFragSubmessage::new(
                     reader_guid.entity_id(),
                     self.remote_writer_guid().entity_id(),
